@@ -15,7 +15,7 @@ package hashing
 //@ func HashingReaderWrapper.Read
 //@   props C07 C04 C06
 //@   requires wrapperOK(t)
-//@   assigns *bytes, X.stream, X.hacc, X.hkind
+//@   assigns *bytes, X.stream, X.spos, X.hacc, X.hkind
 
 //@ func HashingReaderWrapper.Peek
 //@   props C07 C06
@@ -37,9 +37,9 @@ package hashing
 //@ func HashingReaderWrapper.Discard
 //@   props C07
 //@   requires t != nil && t.Reader != nil
-//@   assigns X.stream
+//@   assigns X.stream, X.spos
 
 //@ func HashingReaderWrapper.Reset
 //@   props C07
 //@   requires t.Reader != nil
-//@   assigns X.stream
+//@   assigns X.stream, X.spos
